@@ -296,8 +296,8 @@ def gen_cases(rng, n, n_cf):
 
 def run(ctx):
     quick = ctx.tier == "quick"
-    n = 60 if quick else 600
-    cases = gen_cases(ctx.rng("gen"), n, 5 if quick else 80)
+    n = 50 if quick else 400
+    cases = gen_cases(ctx.rng("gen"), n, 4 if quick else 30)
     per = 1 if quick else 8
     ctx.rule = ("every (value kind, mutator) pair over list/dict/set/object/numpy (content, shape, dtype) and file inputs "
                 "(python and shell task, copy mode copy/default, mutate or not) with random contents, non-mutating controls, "
